@@ -32,36 +32,42 @@ if ! (cd "$ROOT/harness" && $GO version >/dev/null 2>&1); then
 fi
 
 build() { # $1 = output name, rest = extra build flags
+  # Each registered command gets its own binary (name suffixed with the property id), written under a private
+  # name and renamed into place, so that several checks may be run at the same time from one /verif.
   local out=$1; shift
-  (cd "$ROOT/harness" && $GO build $MODFLAG "$@" -o "$WORK/bin/$out" ./cmd/vcheck) 2>"$WORK/build-$out.log"
+  (cd "$ROOT/harness" && $GO build $MODFLAG "$@" -o "$WORK/bin/$out.$$" ./cmd/vcheck) 2>"$WORK/build-$out.log"
   local rc=$?
   if [ $rc -ne 0 ]; then
+    rm -f "$WORK/bin/$out.$$"
     echo "INCONCLUSIVE harness does not build against /repo's working tree ($out):"; head -30 "$WORK/build-$out.log"
     exit 2
   fi
+  mv -f "$WORK/bin/$out.$$" "$WORK/bin/$out"
 }
 
 cmd=${1:-}
 case "$cmd" in
   setup)
-    build vcheck
     build vcheck-race -race
+    build vcheck
     "$WORK/bin/vcheck" selftest | tail -3
     exit ${PIPESTATUS[0]}
     ;;
   replay)
-    build vcheck
-    exec "$WORK/bin/vcheck" replay "$2"
+    build vcheck-replay
+    build vcheck-race-replay -race
+    export VERIF_BIN=$WORK/bin/vcheck-replay VERIF_BIN_RACE=$WORK/bin/vcheck-race-replay
+    exec "$WORK/bin/vcheck-replay" replay "$2"
     ;;
   C[0-9][0-9])
     tier=${2:-${VERIF_TIER:-quick}}
     shift; shift || true
-    build vcheck
+    build vcheck-$cmd
     case "$cmd" in
-      C16|C19|C20) build vcheck-race -race ;;
+      C16|C19|C20) build vcheck-race-$cmd -race ;;
     esac
-    export VERIF_BIN=$WORK/bin/vcheck VERIF_BIN_RACE=$WORK/bin/vcheck-race
-    exec "$WORK/bin/vcheck" "$cmd" --tier "$tier" "$@"
+    export VERIF_BIN=$WORK/bin/vcheck-$cmd VERIF_BIN_RACE=$WORK/bin/vcheck-race-$cmd
+    exec "$WORK/bin/vcheck-$cmd" "$cmd" --tier "$tier" "$@"
     ;;
   *)
     echo "usage: $0 setup | <Cxx> quick|thorough | replay <file>"; exit 2 ;;
